@@ -106,6 +106,12 @@ func (h *H) bands(mult int) {
 					continue
 				}
 				snap0 := bandSnapshot(b)
+				// what a caller keeps of instance a: the slices and objects the API returned
+				keptLists := [][]int{a.GetUplinkChannelIndices(), a.GetStandardUplinkChannelIndices(), a.GetCustomUplinkChannelIndices(),
+					a.GetEnabledUplinkChannelIndices(), a.GetDisabledUplinkChannelIndices(), a.GetEnabledUplinkDataRates()}
+				keptCF := a.GetCFList("1.0.2")
+				keptADR := a.GetLinkADRReqPayloadsForEnabledUplinkChannelIndices(a.GetEnabledUplinkChannelIndices())
+				keptText := fmt.Sprintf("%v %s %+v", keptLists, deep(keptCF), keptADR)
 				nops := 5 + r.Intn(40)
 				var hist []string
 				for i := 0; i < nops; i++ {
@@ -151,6 +157,11 @@ func (h *H) bands(mult int) {
 					}()
 				}
 				snap1 := bandSnapshot(b)
+				if after := fmt.Sprintf("%v %s %+v", keptLists, deep(keptCF), keptADR); after != keptText {
+					h.s.Fail(cases.GoFail{Key: fmt.Sprintf("kept-copy-changed:band:%s:rep=%v:dwell=%d:%d", name, cfg.rep, cfg.dt, rep),
+						What:   "index lists / CFList / LinkADRReq payloads returned by a band object changed when the band was mutated afterwards: " + clip(keptText) + " then " + clip(after),
+						Replay: map[string]interface{}{"band": string(name), "history": hist}})
+				}
 				h.s.Add(cases.Case{
 					Term: fmt.Sprintf("CBand %d %d %s %s", idx, nops, cq.Zs(snap0), cq.Zs(snap1)),
 					Key:  fmt.Sprintf("band-instances:%s:rep=%v:dwell=%d:%d", name, cfg.rep, cfg.dt, rep), Kind: "band-instances", Nontrivial: true,
